@@ -382,7 +382,30 @@ def unknown_is_deferred(F, rep):
             n += 1
             k += 1
             declared = d.startswith("varty:") or "varty:" in d
+            # .. or the unknown case has been settled just before: `if matches!(self.find_type(x), Type::Unknown) { .. unify(x, <a
+            # type made here>) .. }` in front of the split gives x the shape the operation needs (a requirement on what it
+            # turns out to be, like a recorded constraint)
+            settled = False
+            xh = peel(arg).get("hid") if isinstance(arg, dict) else None
+            order = [id(y) for y in nodes(fn_body(fn))]
+            for i_ in nodes(fn_body(fn), "If"):
+                c_ = peel(i_["c"])
+                if not (c_.get("k") == "Match" and "matches" in (c_.get("mac") or [])):
+                    continue
+                sc_ = peel(c_["scrut"])
+                a_ = sc_["args"][0] if sc_.get("k") == "MethodCall" and sc_.get("args") else sc_
+                if xh is None or peel(a_).get("hid") != xh:
+                    continue
+                only_unknown = all((pat_variant(alt) or "").endswith("Type::Unknown") or pat_is_catchall(alt)
+                                   for a2 in c_["arms"] for alt in pat_alternatives(a2["pat"])) and \
+                    any((pat_variant(alt) or "").endswith("Type::Unknown") for a2 in c_["arms"] for alt in pat_alternatives(a2["pat"]))
+                unifies = any(callee(u) == "sylt_compiler::typechecker::TypeChecker::unify" and
+                              any(peel(z).get("hid") == xh for z in u["args"]) for u in nodes(i_["t"], "MethodCall"))
+                if only_unknown and unifies and order.index(id(i_)) < order.index(id(m)):
+                    settled = True
+            declared = declared or settled
             rep.ob("INFERENCE", "%s|catch-all=>error#%d" % (last(fn["_path"], 2), k), declared,
+                   "a type that is still unknown is given the shape the operation needs before the split" if settled else
                    "the case split is on the type of a declaration the source names (%s)" % d if declared else
                    "%s splits on the type of an expression (%s) and answers everything it does not list - a type that is still Unknown "
                    "included - with the error `%s`: `bump :: fn c: Counter, by: int do c.n += by end` is accepted and is rejected once the "
